@@ -83,18 +83,19 @@ def rules(fx, rep):
     rep.check(set(derived_unsafe) <= {'std::clone::TrivialClone'}, 'PURE', 'derive-generated-unsafe-impls', 'only the compiler\'s TrivialClone marker from #[derive(Clone)]', 'unsafe impls of %s' % derived_unsafe)
     ub = [u for u in fx.unsafe_blocks if u['source'] == 'UserProvided']
     evalr = roles.roles(fx).get('iso_evaluator')
-    okub = len(ub) == 1 and evalr is not None and ub[0]['owner'] == evalr
-    rep.check(okub, 'PURE', 'unsafe-blocks', 'exactly one unsafe block: the isogeny evaluator writes back through as_tuple_mut of its own &mut argument',
-              'unsafe blocks: %s' % [(u['owner'], u['span']) for u in ub])
-    if okub:
-        # what the block may do: only the call of as_tuple_mut on parameter 1
-        b = fx.body(evalr)
-        o = Origin(b)
-        ucalls = [t for _, t in b.calls() if (callee(t) or {}).get('name') == 'as_tuple_mut']
-        ok = len(ucalls) == 1 and strip(o.operand(ucalls[0]['args'][0])) == ('param', 1)
+    # every hand-written unsafe block lives in the isogeny evaluator and is a coordinate write-back: one as_tuple_mut() of
+    # the evaluator's own exclusive reference per block, nothing else (the same decision as C16's evaluator rule)
+    from props import c16
+    foreign = [(u['owner'], u['span']) for u in ub if u['owner'] != evalr]
+    probs, n_ub = (c16.evaluator_unsafe_problems(fx, evalr) if evalr is not None else (['isogeny evaluator not found'], 0))
+    rep.check(not foreign and not probs, 'PURE', 'unsafe-blocks', 'unsafe blocks (%d) only in the isogeny evaluator, each one write-back through as_tuple_mut of its own &mut argument' % n_ub,
+              ('unsafe blocks outside the evaluator: %s' % foreign) if foreign else '; '.join(probs[:3]))
+    b = fx.body(evalr) if evalr is not None else None
+    if b is not None:
         unsafe_callees = [t for _, t in b.calls() if (fx.fn((callee(t) or {}).get('res') or (callee(t) or {}).get('def') or '') or {}).get('unsafe')]
-        rep.check(ok and len(unsafe_callees) == 1, 'PURE', 'unsafe-block-content', 'the only unsafe operation is as_tuple_mut(pt) on the function\'s own exclusive reference',
-                  'unsafe operations in the isogeny evaluator: %s' % [(callee(t) or {}).get('def') for t in unsafe_callees])
+        atm_ = [t for _, t in b.calls() if (callee(t) or {}).get('name') == 'as_tuple_mut']
+        rep.check(len(unsafe_callees) == len(atm_), 'PURE', 'unsafe-block-content', 'the only unsafe operation is as_tuple_mut(pt) on the function\'s own exclusive reference',
+                  'unsafe callees in the evaluator: %s' % [(callee(t) or {}).get('def') for t in unsafe_callees])
     uf = sorted(p for p, f in fx.fns.items() if f.get('unsafe'))
     rep.check(set(uf) <= UNSAFE_FN_ALLOW, 'PURE', 'unsafe-fns', '%d unsafe fns, all raw constructors / coordinate accessors (no pointer or FFI work inside)' % len(uf),
               'new unsafe fns: %s' % sorted(set(uf) - UNSAFE_FN_ALLOW))
